@@ -259,6 +259,17 @@ class External(object):
         self.dotted = dotted
 
 
+class ObjVal(object):
+    """An instance of a small per-call class of the package (accumulator object): fields + methods of its class."""
+
+    def __init__(self, ci):
+        self.ci = ci
+        self.fields = {}
+
+    def __repr__(self):
+        return '<%s object>' % self.ci.name
+
+
 class Partial(object):
     """functools.partial(f, *args, **kwargs)"""
 
@@ -510,7 +521,7 @@ class Interp(object):
             return True
         if isinstance(v, Opaque):
             return self.decide(('opaque', v.text))
-        if isinstance(v, (FuncSym, FuncVal, Closure, ClassVal, DictSym, SelfObj, ExcVal, BoundMethod, Partial)):
+        if isinstance(v, (FuncSym, FuncVal, Closure, ClassVal, DictSym, SelfObj, ExcVal, BoundMethod, Partial, ObjVal, External, Builtin)):
             return True
         if isinstance(v, PNode):
             return bool(v.children)
@@ -772,6 +783,9 @@ class Interp(object):
                 return
         if isinstance(t, ast.Attribute):
             obj = self.eval(t.value, env, module, owner, depth)
+            if isinstance(obj, ObjVal):
+                obj.fields[t.attr] = v
+                return
             if isinstance(obj, SelfObj) and getattr(self, 'init_phase', False):
                 obj.fields[t.attr] = v
                 return
@@ -922,6 +936,15 @@ class Interp(object):
             vals = mod.assigns.get(nm, [])
             if len(vals) == 1 and isinstance(vals[0], ast.Constant):
                 return vals[0].value
+            if len(vals) == 1 and isinstance(vals[0], (ast.Tuple, ast.List, ast.Dict)):
+                cache = self.__dict__.setdefault('_global_cache', {})
+                key = (mod.name, nm)
+                if key not in cache:
+                    try:
+                        cache[key] = self.eval(vals[0], Env(), mod, None, 0)
+                    except AnalysisError:
+                        cache[key] = Opaque('global %s' % nm)
+                return cache[key]
             return Opaque('global %s' % nm)
         raise AnalysisError('name %s not resolved' % name)
 
@@ -932,13 +955,23 @@ class Interp(object):
                 return FuncVal(f) if (f.is_static or isinstance(obj, ClassVal)) else BoundMethod(obj, attr)
             k, v = self.idx.lookup_attr(obj.ci, attr)
             if v is not None:
-                return Opaque('%s.%s' % (obj.ci.name, attr))
+                return self.class_attr(k, attr, v)
             if isinstance(obj, SelfObj):
                 if attr in obj.fields:
                     return obj.fields[attr]
                 self.state_reads.append(attr)
                 return StateVal('self.%s' % attr)
             return Opaque('%s.%s' % (obj.ci.name, attr))
+        if isinstance(obj, ObjVal):
+            if attr in obj.fields:
+                return obj.fields[attr]
+            f = self.idx.lookup(obj.ci, attr)
+            if f is not None:
+                return FuncVal(f) if f.is_static else BoundMethod(obj, attr)
+            k, v = self.idx.lookup_attr(obj.ci, attr)
+            if v is not None:
+                return self.class_attr(k, attr, v)
+            raise _Raise(ExcVal('AttributeError'))
         if isinstance(obj, External):
             return External(obj.dotted + '.' + attr)
         if isinstance(obj, (list, StrTok, str, dict, DictSym, tuple, set, PNode)):
@@ -950,6 +983,20 @@ class Interp(object):
         if isinstance(obj, Num):
             return Opaque('%s.%s' % (obj.text, attr))
         raise AnalysisError('attribute access not supported: `%s`' % short(node))
+
+    def class_attr(self, ci, attr, node):
+        """Value of a class-level binding (ordered tables of (symbol, function) rows and the like); Opaque if not evaluable."""
+        cache = self.__dict__.setdefault('_class_attr_cache', {})
+        key = (ci.qualname, attr)
+        if key not in cache:
+            env = Env()
+            for mname, m in ci.methods.items():
+                env.vars[mname] = FuncVal(m)
+            try:
+                cache[key] = self.eval(node, env, ci.module, None, 0)
+            except AnalysisError:
+                cache[key] = Opaque('%s.%s' % (ci.name, attr))
+        return cache[key]
 
     def subscript(self, obj, key, node):
         if isinstance(obj, PNode):
@@ -1126,6 +1173,9 @@ class Interp(object):
             if q in POW_FUNCS:
                 return self._pow(args)
             if q.startswith(INLINE_PREFIX) and q.split('.')[3] not in ('mathfuncs', 'math_array', 'specify_domain', 'formatters'):
+                if f.fi.cls is not None and not f.fi.is_static and not f.fi.is_classmethod and args and \
+                        isinstance(args[0], (ObjVal, SelfObj)):
+                    return self.call_function(f.fi, args[1:], kwargs, depth + 1, bound=args[0])     # unbound method: f(obj, ...)
                 return self.call_function(f.fi, args, kwargs, depth + 1)
             if q.endswith('.is_vector') or q.endswith('.is_matrix') or q.endswith('.is_square') or q.endswith('.is_tensor'):
                 if args and isinstance(args[0], (Num, int, Fraction)):
@@ -1140,6 +1190,13 @@ class Interp(object):
                 return ExcVal(f.ci.name)
             if f.ci.name == 'MathArray':
                 return ArrayVal('MathArray', args[0] if args else None)
+            if f.ci.module.name.startswith(INLINE_PREFIX.rstrip('.')) and f.ci.module.name.split('.')[-1] == 'expressions' \
+                    and len(f.ci.mro) <= 2:
+                obj = ObjVal(f.ci)
+                init = self.idx.lookup(f.ci, '__init__')
+                if init is not None:
+                    self.call_function(init, args, kwargs, depth + 1, bound=obj)
+                return obj
             return Opaque('%s(...)' % f.ci.name)
         if isinstance(f, Builtin):
             return self.builtin(f.name, args, kwargs, node)
@@ -1153,6 +1210,10 @@ class Interp(object):
                 return False
             if d == 'numpy.any' and len(args) == 1:
                 return self.truth(args[0]) if not isinstance(args[0], (list, tuple)) else any(self.truth(x) for x in args[0])
+            if d.startswith('operator.') and len(args) == 2 and d.split('.')[1] in _OPERATOR:
+                return self.binop(_OPERATOR[d.split('.')[1]](), args[0], args[1])
+            if d == 'operator.neg' and len(args) == 1:
+                return self.space.neg(args[0]) if isinstance(args[0], Num) else -args[0]
             if d in ('functools.partial', 'partial') and args:
                 return Partial(args[0], args[1:], kwargs)
             if d in ('functools.reduce', 'reduce'):
@@ -1247,6 +1308,15 @@ class Interp(object):
             if isinstance(args[0], (str, StrTok)):
                 return args[0]
             return Opaque('str(...)')
+        if name == 'next' and 1 <= len(args) <= 2:
+            items = self.iterate(args[0])
+            if items:
+                return items[0]
+            if len(args) == 2:
+                return args[1]
+            raise _Raise(ExcVal('StopIteration'))
+        if name == 'iter' and len(args) == 1:
+            return self.iterate(args[0])
         if name == 'abs' and len(args) == 1 and isinstance(args[0], (int, Fraction)):
             return abs(args[0])
         if name == 'bool' and len(args) == 1:
@@ -1311,6 +1381,11 @@ class Interp(object):
             if name in ('setdefault', 'update', 'append', 'add', 'pop', 'clear', 'insert', 'extend', 'remove', 'discard', '__setitem__'):
                 self.state_writes.append(recv.text)
             return StateVal('%s.%s(...)' % (recv.text, name))
+        if isinstance(recv, ObjVal):
+            f = self.idx.lookup(recv.ci, name)
+            if f is None:
+                raise AnalysisError('method %s not found on %s' % (name, recv.ci.name))
+            return self.call_function(f, args, kwargs, depth + 1, bound=recv)
         if isinstance(recv, SelfObj):
             f = self.idx.lookup(recv.ci, name)
             if f is None:
@@ -1381,6 +1456,10 @@ class Interp(object):
             if name == 'get' and args:
                 return self.subscript(recv, args[0], node)
         raise AnalysisError('method call not supported by the symbolic evaluator: `%s`' % short(node))
+
+
+_OPERATOR = {'add': ast.Add, 'sub': ast.Sub, 'mul': ast.Mult, 'truediv': ast.Div, 'pow': ast.Pow, 'floordiv': ast.FloorDiv,
+             'mod': ast.Mod}
 
 
 def _is_generator(fn):
